@@ -152,7 +152,7 @@ end
 theorem cover_ok (T : Array PNode) (d : DNode) (hl : LayN T d 0 1) (hn : T.size = 1 + descT d) (hw : gW d = true)
     (j : Nat) (hj : j < T.size) : (coverArr T)[j]! = if j = 0 then 0 else 1 := by
   rw [coverArr_get T j hj,
-    sum_all T (fun i => ind T i j) (indT j) (fun d' g b' h1 h2 => ind_eq_indT T j d' g b' h1 h2) d hl hn hw,
+    sum_all T (fun i => ind T i j) (indT j) (fun d' g b' h1 h2 _ => ind_eq_indT T j d' g b' h1 h2) d hl hn hw,
     tsN_indT]
   by_cases h : j = 0
   · rw [if_pos h, if_neg (by omega)]
